@@ -33,6 +33,15 @@ def probes(ctx):
                           f"({cs}): no polynomial work bound",
                   "identity": "exponential-work:unmemoised-rule-alternatives",
                   "replay_payload": {"property": "C12", "grammar": 'd = "a" d / "a" d / "a"', "inputs": d["work_ns"], "calls": cs}})
+    # work bound on the constructs the library memoises: literal-match calls must stay linear in the input length
+    for pr in d.get("memo_probes", []):
+        bad = [r for r in pr["rows"] if r[1] > 16 * (r[0] + 1) or r[2] in ("budget", "RecursionError")]
+        if bad:
+            v.append({"what": f"work probe '{pr['probe']}' ({'; '.join(pr['grammar'])}): {bad[0][1]} literal-match calls on an input of "
+                              f"{bad[0][0]} characters (bound 16*(n+1)); rows {pr['rows']}",
+                      "identity": "work-bound:memoised:" + pr["probe"],
+                      "replay_payload": {"property": "C12", "grammar": pr["grammar"], "rows": pr["rows"],
+                                         "bound": "16*(len+1) literal-match calls"}})
     return d, v
 
 
